@@ -132,3 +132,157 @@ pub proof fn lemma_block_ok_wf(p0: Partition, p1: Partition, lo: Seq<u64>)
         assert(p1.segments@.last() == p1.segments@[0]);
     }
 }
+
+// ---- LINK harnesses: the contracts other units ASSUME for functions proved here, proved from the real ones ---------------------
+// Each harness has the assuming unit's stub signature, its `requires` / `ensures` copied VERBATIM from that unit's prelude.rs, and a
+// body that is ONE call of the real extracted function: Verus proves "real contract ==> assumed contract" on every run.
+// A later edit of a stub has to be mirrored here (and vice versa). The assuming units keep fewer fields of Segment / Partition than
+// this unit: their equalities / `contains` on segments are the projections of the ones proved here.
+impl Partition {
+    // copied from units/topic_limit/prelude.rs, stub `Partition::add_persisted_segment`
+    // label: C14.link.topic_limit.add_persisted_segment
+    pub fn link_topic_limit_add_persisted_segment(&mut self, start_offset: u64) -> (r: Result<(), IggyError>)
+        ensures
+            final(self).partition_id == old(self).partition_id,
+            forall|j: int| 0 <= j < old(self).segments@.len() ==> final(self).segments@.contains(#[trigger] old(self).segments@[j]),
+            forall|j: int| 0 <= j < final(self).segments@.len() ==> old(self).segments@.contains(#[trigger] final(self).segments@[j]) || final(self).segments@[j].end_offset == 0,
+            // (added by the link, so that the invariant delete_segment requires survives the replacement of an emptied partition's segments)
+            segs_range_ok(old(self).segments@) ==> segs_range_ok(final(self).segments@),
+            (segs_strict(old(self).segments@) && forall|i: int| 0 <= i < old(self).segments@.len() ==> (#[trigger] old(self).segments@[i]).start_offset < start_offset)
+                ==> segs_strict(final(self).segments@),
+    {
+        proof { reveal(segs_sorted); }
+        let r = self.add_persisted_segment(start_offset);
+        proof {
+            if r is Ok {
+                let ns = choose|ns: Segment| fresh_segment(ns, start_offset, old(self).message_expiry, *old(self).config)
+                    && #[trigger] old(self).segments@.push(ns).to_multiset() == self.segments@.to_multiset();
+                lemma_perm_push_contains(self.segments@, old(self).segments@, ns);
+                if segs_range_ok(old(self).segments@) {
+                    assert forall|j: int| 0 <= j < self.segments@.len() implies seg_range_ok(#[trigger] self.segments@[j]) by {
+                        if old(self).segments@.contains(self.segments@[j]) {
+                            let k = choose|k: int| 0 <= k < old(self).segments@.len() && old(self).segments@[k] == self.segments@[j];
+                            assert(seg_range_ok(old(self).segments@[k]));
+                        }
+                    }
+                }
+            }
+        }
+        r
+    }
+
+    // copied from units/topic_limit/prelude.rs, stub `Partition::delete_segment`
+    // label: C14.link.topic_limit.delete_segment
+    pub fn link_topic_limit_delete_segment(&mut self, start_offset: u64) -> (r: Result<DeletedSegment, IggyError>)
+        requires
+            segs_strict(old(self).segments@), segs_range_ok(old(self).segments@),
+        ensures
+            segs_strict(final(self).segments@) && segs_range_ok(final(self).segments@),
+            final(self).partition_id == old(self).partition_id,
+            forall|j: int| 0 <= j < old(self).segments@.len() && (#[trigger] old(self).segments@[j]).start_offset != start_offset
+                ==> final(self).segments@.contains(old(self).segments@[j]),
+            r is Ok ==> forall|j: int| 0 <= j < final(self).segments@.len() ==> old(self).segments@.contains(#[trigger] final(self).segments@[j]),
+            r is Ok ==> r->Ok_0.messages_count <= 0x1_0000_0000
+                && exists|i: int| 0 <= i < old(self).segments@.len() && (#[trigger] old(self).segments@[i]).start_offset == start_offset
+                    && r->Ok_0.end_offset == old(self).segments@[i].end_offset,
+    {
+        proof { reveal(segs_sorted); }
+        let r = self.delete_segment(start_offset);
+        proof {
+            let a = old(self).segments@; let b = self.segments@;
+            if r is Ok {
+                // exactly the segments with another start offset are kept, in order
+                assert forall|j: int| 0 <= j < a.len() && (#[trigger] a[j]).start_offset != start_offset implies b.contains(a[j]) by {
+                    assert(not_start(start_offset)(a[j]));
+                    let k = lemma_keep_dst(a, not_start(start_offset), j);
+                }
+                assert forall|j: int| 0 <= j < b.len() implies a.contains(#[trigger] b[j]) by {
+                    let i = lemma_keep_src(a, not_start(start_offset), j);
+                }
+            } else {
+                // a failed delete leaves every segment in place; only the target may have lost its file handles
+                reveal(segs_same_except);
+                assert forall|j: int| 0 <= j < a.len() && (#[trigger] a[j]).start_offset != start_offset implies b.contains(a[j]) by {
+                    assert(b[j] == a[j]);
+                }
+            }
+        }
+        r
+    }
+}
+
+// a rearrangement of `b.push(x)` holds every element of b, and nothing but elements of b and x
+pub proof fn lemma_perm_push_contains<T>(a: Seq<T>, b: Seq<T>, x: T)
+    requires b.push(x).to_multiset() == a.to_multiset(),
+    ensures
+        forall|j: int| 0 <= j < b.len() ==> a.contains(#[trigger] b[j]),
+        forall|j: int| 0 <= j < a.len() ==> b.contains(#[trigger] a[j]) || a[j] == x,
+{
+    let bx = b.push(x);
+    a.to_multiset_ensures();
+    bx.to_multiset_ensures();
+    assert forall|j: int| 0 <= j < b.len() implies a.contains(#[trigger] b[j]) by {
+        assert(bx[j] == b[j]);
+        assert(bx.contains(b[j]));
+        assert(bx.to_multiset().count(b[j]) > 0);
+        assert(a.to_multiset().count(b[j]) > 0);
+    }
+    assert forall|j: int| 0 <= j < a.len() implies b.contains(#[trigger] a[j]) || a[j] == x by {
+        assert(a.contains(a[j]));
+        assert(a.to_multiset().count(a[j]) > 0);
+        assert(bx.to_multiset().count(a[j]) > 0);
+        assert(bx.contains(a[j]));
+        let k = choose|k: int| 0 <= k < bx.len() && bx[k] == a[j];
+        if k < b.len() { assert(b[k] == a[j]); }
+    }
+}
+
+impl Partition {
+    // copied from units/offsets/prelude.rs, stub `Partition::add_persisted_segment`: its `requires`, its Err clause and its FIRST Ok
+    // clause (the second Ok clause — seg_wf / seg_msgs of vx/prelude/segview.rs over the file views of the handles — rests on A-io of
+    // Segment::persist and cannot be written with this unit's opaque handles: still assumed there).
+    // `last_seg` / `segs_sorted_strict` are vx/prelude/segview.rs, repeated below word for word.
+    // label: C14.link.offsets.add_persisted_segment
+    pub fn link_offsets_add_persisted_segment(&mut self, start_offset: u64) -> (r: Result<(), IggyError>)
+        requires forall|i: int| 0 <= i < old(self).segments@.len() ==> (#[trigger] old(self).segments@[i]).start_offset < start_offset,
+            segs_sorted_strict(old(self).segments@),
+        ensures
+            r is Err ==> *final(self) == *old(self),
+            r is Ok ==> {
+                &&& final(self).segments@.len() == old(self).segments@.len() + 1
+                &&& forall|i: int| 0 <= i < old(self).segments@.len() ==> final(self).segments@[i] == old(self).segments@[i]
+                &&& last_seg(final(self)).start_offset == start_offset
+                &&& last_seg(final(self)).current_offset == start_offset && !last_seg(final(self)).is_closed
+                &&& last_seg(final(self)).size_bytes == 0
+                &&& last_seg(final(self)).unsaved_messages is None
+                &&& last_seg(final(self)).last_index_position == 0
+                &&& *final(self) == (Partition { segments: final(self).segments, segments_count_of_parent_stream: final(self).segments_count_of_parent_stream, ..*old(self) })
+            },
+    {
+        proof { reveal(segs_sorted); }
+        let r = self.add_persisted_segment(start_offset);
+        proof {
+            if r is Ok {
+                assert(self.segments@.drop_last() == old(self).segments@);
+                assert forall|i: int| 0 <= i < old(self).segments@.len() implies self.segments@[i] == old(self).segments@[i] by {
+                    assert(self.segments@.drop_last()[i] == self.segments@[i]);
+                }
+            }
+        }
+        r
+    }
+}
+// (vocabulary of vx/prelude/segview.rs used by the copied clauses)
+pub open spec fn last_seg(p: &Partition) -> &Segment { &p.segments@[p.segments@.len() - 1] }
+pub open spec fn segs_sorted_strict(s: Seq<Segment>) -> bool {
+    forall|i: int, j: int| 0 <= i < j < s.len() ==> (#[trigger] s[i]).start_offset < (#[trigger] s[j]).start_offset
+}
+// (vocabulary of units/topic_limit/prelude.rs used by the copied clauses, repeated word for word; seg_range_ok is this unit's seg_wf,
+//  segs_strict this unit's segs_sorted without the opacity)
+pub open spec fn segs_strict(s: Seq<Segment>) -> bool {
+    forall|i: int, j: int| 0 <= i < j < s.len() ==> (#[trigger] s[i]).start_offset < (#[trigger] s[j]).start_offset
+}
+pub open spec fn seg_range_ok(s: Segment) -> bool {
+    s.start_offset <= s.current_offset && s.current_offset - s.start_offset < 0x1_0000_0000 && s.end_offset < u64::MAX
+}
+pub open spec fn segs_range_ok(s: Seq<Segment>) -> bool { forall|i: int| 0 <= i < s.len() ==> seg_range_ok(#[trigger] s[i]) }
